@@ -64,7 +64,7 @@ package piecerequest
 
 //@ func Manager.Clear
 //@   requires mshape(m)
-//@   modifies *
+//@   modifies map m.requests, map m.requestsByPeer, allmaps map[int]*Request
 //@   ensures gone: !(i in m.requests)
 //@   ensures gone_by_peer: forall p core.PeerID :: p in m.requestsByPeer ==> !(i in m.requestsByPeer[p])
 //@   ensures others_by_piece: forall k int :: k != i ==> ((k in m.requests) <==> old(k in m.requests)) && m.requests[k] == old(m.requests[k])
